@@ -164,7 +164,9 @@ func (r *ContentReader) parseComments() {
 			}
 		case skipNextLine:
 			r.skipNext = true
-			r.autoReset = true
+			if !r.inBegin {
+				r.autoReset = true
+			}
 		case skipBegin:
 			r.skipNext = true
 			r.autoReset = false
